@@ -1,14 +1,16 @@
 """C02 — the validation verdict equals the declared constraints, no more, no less."""
 from .. import conforms, runner, valcases, valcorr
 
-MODULE = "D42.Props.C02"
+MODULE = "D42.Props.C02All"
 THEOREMS = ["validate_iff_conforms", "validateP_nil_iff", "validateAllP_nil_iff", "validateElemsP_nil_iff",
-            "validateFieldsP_nil_iff", "anyOkP_iff", "validateScalar_nil_iff", "minByLen_nil_iff", "windowsP_exists_nil"]
-FILES = ["D42/Model/Data.lean", "D42/Model/Float.lean", "D42/Model/Validate.lean", "D42/Spec/Conforms.lean", "D42/Props/C02.lean"]
+            "validateFieldsP_nil_iff", "anyOkP_iff", "validateScalar_nil_iff", "minByLen_nil_iff", "windowsP_exists_nil",
+            "validateScalar_eq_extracted", "listPrelude_eq_extracted", "dictPrelude_eq_extracted", "anyPrelude_eq_extracted", "validateP_list_prelude", "validateP_dict_prelude"]
+FILES = ["D42/Model/Data.lean", "D42/Model/Float.lean", "D42/Model/Validate.lean", "D42/Spec/Conforms.lean", "D42/Props/C02.lean",
+         "D42/Model/CheckProg.lean", "D42/Gen/ValidatorProg.lean", "D42/Props/ValidatorProg.lean", "D42/Props/C02All.lean"]
 
 EVIDENCE = dict(
     level="proof",
-    checker_cmd="lake build D42.Props.C02 d42model && lake env lean <#print axioms audit>",
+    checker_cmd="lake build D42.Props.C02All d42model && lake env lean <#print axioms audit>",
     trusted=["Lean 4.33.0 kernel; axioms ⊆ {propext, Classical.choice, Quot.sound}",
              "model D42/Model/Validate.lean tied to the code by the verdict/error-list correspondence of this run",
              "Conforms (Lean) is the declarative meaning written from the property text; harness/conforms.py is its "
@@ -38,6 +40,11 @@ def oracle(ctx, cases):
 
 
 def run(ctx):
+    from .. import extract_validator
+    ok, msg = extract_validator.run()
+    if not ok:
+        ctx.breakage("translation", "validator extraction failed (d42/validation/_validator.py no longer consists of the "
+                     "recognised idioms): " + msg)
     runner.prove(ctx, MODULE, THEOREMS, FILES)
     cases = []
     for s, w in valcases.scalar_corpus() + valcases.schema_batch(ctx, ctx.n(80, 600), customs=False):
